@@ -21,16 +21,22 @@ from vlib.cases import Case, Sub, evaluate as _evaluate
 from vlib.core import enc_csr, enc_list, enc_listlist, enc_bool, enc_ratlist, _exact, VERIF
 
 RULE = ('corpus first; exhaustive digraphs with self-loops n<=3 and undirected graphs with self-loops n<=4 '
-        '(quick: sampled digraphs n=4, undirected n=5; thorough: all of them and sampled n=5/6), biadjacency '
+        '(quick: sampled n=4 digraphs with and without self-loops, undirected n=5 with and without; thorough: all '
+        'loop-free n=4 digraphs, more samples, n=5/6), a third of them with unsorted CSR rows; biadjacency '
         'matrices up to 3x3, structured random graphs n<=12 (several components, isolated nodes, self-loops, '
         'weights in {bool, 1, small integers, dyadic fractions}, sorted and unsorted CSR rows), degenerate stream '
-        '(empty, 1x1, asymmetric weights on a symmetric pattern); x both connection modes x force_bipartite x '
-        'directed in {None, True, False} x every admissible single root and sampled root lists. '
+        '(empty, 1x1, asymmetric weights on a symmetric pattern) and a pinned out-of-domain stream (negative '
+        'weights, explicit zeros: run lines only); container formats csr / csc / coo / lil / dense ndarray; '
+        'x both connection modes x force_bipartite x directed in {None, True, False} x every single root '
+        '(int and numpy integer) and root lists (list and ndarray; sorted, unsorted with repetition, out of range). '
         'A case is non-trivial when the matrix has an edge and the answer is not an error; for break_cycles when '
-        'the input has a cycle; distinct = distinct (function, matrix, arguments)')
+        'the input has a cycle; distinct = distinct (function, matrix, format, arguments)')
 ASSUMPTIONS = [
-    'scipy.sparse.csgraph.connected_components returns the weak/strong components (contract line on every call it answers)',
-    'input domain: CSR matrices without duplicate entries, stored values > 0 (no explicit zeros, no negative weights)',
+    'scipy.sparse.csgraph.connected_components returns the weak/strong components (a contract line for every label '
+    'vector / count handed to a model: each description emits the contract lines of the scipy answers it consumes)',
+    'input domain of the spec lines: matrices without duplicate entries, stored values > 0 (explicit zeros and negative '
+    'weights only in the pinned stream, judged by run lines); any of csr_matrix, csc_matrix, coo_matrix, lil_matrix, ndarray',
+    'roots: int, numpy integer, list or ndarray of node numbers (a tuple and a negative number are outside)',
     'CPython enumerates a set of node numbers < 8 in increasing order (run lines of break_cycles on digraphs are '
     'restricted to n <= 8; larger inputs are judged by the spec line alone)',
     'scipy fancy indexing / tocsc / tocsr / diagonal / eliminate_zeros are the substrate (monitored through the outputs)',
@@ -98,23 +104,99 @@ def without_diagonal(a):
 def call(f):
     try:
         return f()
-    except (ValueError, IndexError, TypeError, KeyError) as e:
+    except (ValueError, IndexError, TypeError, KeyError, AttributeError) as e:
         return 'err ' + type(e).__name__
+
+
+FORMATS = ['csr', 'csc', 'coo', 'lil', 'dense']
+
+
+def to_format(a, fmt):
+    """The container handed to the function; the models see `csr_matrix(container)` (what check_format makes)."""
+    if fmt == 'csr':
+        return a
+    if fmt == 'csc':
+        return sparse.csc_matrix(a)
+    if fmt == 'coo':
+        return sparse.coo_matrix(a)
+    if fmt == 'lil':
+        return sparse.lil_matrix(a)
+    if fmt == 'dense':
+        return a.toarray()
+    raise ValueError(fmt)
+
+
+def copy_container(x):
+    return x.copy()
+
+
+def root_arg(root, kind):
+    if root is None:
+        return None
+    if kind == 'np.int64':
+        return np.int64(root)
+    if kind == 'ndarray':
+        return np.array(root, dtype=np.int64)
+    return root
+
+
+def enc_rows_valued(res):
+    res = sparse.csr_matrix(res)
+    rows = []
+    for i in range(res.shape[0]):
+        ent = sorted((int(j), _exact(v)) for j, v in zip(res.indices[res.indptr[i]:res.indptr[i + 1]],
+                                                          res.data[res.indptr[i]:res.indptr[i + 1]]))
+        rows.append(','.join('%d:%s' % (j, enc_ratlist([v])) for j, v in ent) if ent else '-')
+    return ';'.join(rows) if rows else '-'
+
+
+def same_matrix(x, y):
+    x, y = sparse.csr_matrix(x), sparse.csr_matrix(y)
+    if x.shape != y.shape or x.nnz != y.nnz:
+        return False
+    return (x != y).nnz == 0 and enc_rows_valued(x) == enc_rows_valued(y)
+
+
+def contract_cases(key, adj, pairs, desc):
+    """One contract line per (directed flag, connection) pair for the square matrix `adj` handed to scipy."""
+    out = []
+    for directed, conn in pairs:
+        ncc, labels = ext_cc(adj, directed, conn)
+        strong = bool(directed) and conn == 'strong'
+        out.append(Case(('contract', key, directed, conn),
+                        {'entry': 'scipy.connected_components', 'directed': directed, 'connection': conn}, None, 'ok',
+                        'c12.contract_cc %s %s %s %d' % (enc_csr(adj), enc_bool(strong), enc_list(labels), ncc),
+                        False, desc))
+    return out
 
 
 # ------------------------------------------------------------------------------------------------
 # one case = one description (JSON-able, written into replays / corpus) -> request lines
 # ------------------------------------------------------------------------------------------------
 def build(desc):
-    """Cases for one description {'f': function, 'matrix': …, arguments…}."""
+    """Cases for one description {'f': function, 'matrix': …, 'format': container, arguments…}."""
     from sknetwork.topology import (get_connected_components, is_connected, get_largest_connected_component,
                                     is_bipartite, is_acyclic, get_cycles, break_cycles)
     f = desc['f']
-    a = mat_of(desc['matrix'])
+    fmt = desc.get('format', 'csr')
+    a_csr = mat_of(desc['matrix'])
+    x = to_format(a_csr, fmt)                      # what the caller hands over
+    a = a_csr if fmt == 'csr' else sparse.csr_matrix(x)   # what check_format makes of it: the input of the models
     g = enc_csr(a)
     n, m = a.shape
     has_edge = a.nnz > 0
+    with_spec = desc.get('spec', True)             # False: outside the domain of the specification (pinned stream)
+    pinned = desc.get('pinned')                    # expected literal answer of a pinned convention
     out = []
+
+    def finish(key, sig, run, impl, spec, nontriv):
+        if pinned is not None:
+            run = 'c12.pinned ' + pinned
+        if not with_spec:
+            spec = None
+        sig = dict(sig, format=fmt)
+        out.append(Case(key + (fmt,), sig, run, impl, spec, nontriv and with_spec, desc))
+
     if f in ('get_connected_components', 'is_connected', 'get_largest_connected_component'):
         conn = desc['connection']
         fb = bool(desc['force_bipartite'])
@@ -124,23 +206,21 @@ def build(desc):
         ncc, labels = ext_cc(adj, True, conn)
         sig = {'entry': f, 'connection': conn, 'bipartite': bip}
         key = (f, g, conn, fb)
+        out.extend(contract_cases(('cc', enc_csr(adj)), adj, [(True, conn)], desc))
         if f == 'get_connected_components':
-            out.append(Case(('contract',) + key, {'entry': 'scipy.connected_components', 'connection': conn}, None, 'ok',
-                            'c12.contract_cc %s %s %s %d' % (enc_csr(adj), enc_bool(strong), enc_list(labels), ncc),
-                            False, desc))
-            impl = call(lambda: 'ok ' + enc_list(get_connected_components(a, conn, fb)))
+            impl = call(lambda: 'ok ' + enc_list(get_connected_components(copy_container(x), conn, fb)))
             run = 'c12.cc %s %s %s %s' % (g, enc_bool(strong), enc_bool(fb), enc_list(labels))
             spec = 'c12.spec_cc %s %s %s %s' % (g, enc_bool(strong), enc_bool(fb), impl[3:]) if impl.startswith('ok ') else None
-            out.append(Case(key, sig, run, impl, spec, has_edge and impl.startswith('ok'), desc))
+            finish(key, sig, run, impl, spec, has_edge and impl.startswith('ok'))
         elif f == 'is_connected':
-            impl = call(lambda: 'ok ' + enc_bool(is_connected(a, conn, fb)))
+            impl = call(lambda: 'ok ' + enc_bool(is_connected(copy_container(x), conn, fb)))
             run = 'c12.connected %s %s %s %s' % (g, enc_bool(strong), enc_bool(fb), enc_list(labels))
             spec = 'c12.spec_connected %s %s %s %s' % (g, enc_bool(strong), enc_bool(fb), impl[3:]) if impl.startswith('ok ') else None
-            out.append(Case(key, sig, run, impl, spec, has_edge and impl.startswith('ok'), desc))
+            finish(key, sig, run, impl, spec, has_edge and impl.startswith('ok'))
         else:
             def fl():
-                mat, index = get_largest_connected_component(a, conn, fb, return_index=True)
-                mat2 = get_largest_connected_component(a, conn, fb)
+                mat, index = get_largest_connected_component(copy_container(x), conn, fb, return_index=True)
+                mat2 = get_largest_connected_component(copy_container(x), conn, fb)
                 if mat.shape != mat2.shape or (mat != mat2).nnz:
                     return 'ok %s %s return_index-changes-the-matrix' % (enc_list(index), enc_matrix_dense(mat))
                 if bip:
@@ -157,15 +237,15 @@ def build(desc):
                 spec = 'c12.spec_largest %s %s %s %s %s' % (g, enc_bool(strong), enc_bool(fb), tk[1], tk[2])
                 if len(tk) > 3:
                     spec = 'c12.spec_largest %s %s %s %s %s' % (g, enc_bool(strong), enc_bool(fb), tk[1], 'bad-shape')
-            out.append(Case(key, sig, run, impl, spec, has_edge and impl.startswith('ok'), desc))
+            finish(key, sig, run, impl, spec, has_edge and impl.startswith('ok'))
     elif f == 'is_bipartite':
         def fb_():
-            r = is_bipartite(a, return_biadjacency=True)
-            r2 = is_bipartite(a)
+            r = is_bipartite(copy_container(x), return_biadjacency=True)
+            r2 = is_bipartite(copy_container(x))
             if bool(r[0]) != bool(r2):
                 return 'ok %s return_biadjacency-changes-the-answer' % enc_bool(r2)
             if not r[0]:
-                return 'ok 0' if all(x is None for x in r[1:]) else 'ok 0 not-None'
+                return 'ok 0' if all(y is None for y in r[1:]) else 'ok 0 not-None'
             return 'ok 1 %s %s %s' % (enc_list(r[2]), enc_list(r[3]), enc_matrix_dense(r[1]))
         impl = call(fb_)
         run = 'c12.bip %s' % g
@@ -173,30 +253,29 @@ def build(desc):
         if impl.startswith('ok '):
             tk = impl.split(' ')
             spec = 'c12.spec_bip %s %s %s' % (g, tk[1], ' '.join(tk[2:5]) if len(tk) == 5 else '_ _ _')
-        out.append(Case(('bip', g), {'entry': 'is_bipartite'}, run, impl, spec, has_edge and impl.startswith('ok'), desc))
+        finish(('bip', g), {'entry': 'is_bipartite'}, run, impl, spec, has_edge and impl.startswith('ok'))
     elif f in ('is_acyclic', 'get_cycles'):
         directed = desc['directed']
         dtok = '_' if directed is None else enc_bool(directed)
         ncc_d, lab_d = ext_cc(a, True, 'strong')
         ncc_u, lab_u = ext_cc(a, False, 'strong')
         sig = {'entry': f, 'directed': directed}
+        if n == m:
+            out.extend(contract_cases(('cyc', g), a, [(True, 'strong'), (False, 'strong')], desc))
         if f == 'is_acyclic':
-            for dflag, strong, ncc, lab in ((True, True, ncc_d, lab_d), (False, False, ncc_u, lab_u)):
-                out.append(Case(('contract', f, g, dflag), {'entry': 'scipy.connected_components', 'directed': dflag}, None, 'ok',
-                                'c12.contract_cc %s %s %s %d' % (g, enc_bool(strong), enc_list(lab), ncc), False, desc))
-            impl = call(lambda: 'ok ' + enc_bool(is_acyclic(a, directed)))
+            impl = call(lambda: 'ok ' + enc_bool(is_acyclic(copy_container(x), directed)))
             run = 'c12.acyclic %s %s %d %d' % (g, dtok, ncc_d, ncc_u)
             spec = 'c12.spec_acyclic %s %s %s' % (g, dtok, impl[3:]) if impl.startswith('ok ') else None
-            out.append(Case((f, g, directed), sig, run, impl, spec, has_edge and impl.startswith('ok'), desc))
+            finish((f, g, directed), sig, run, impl, spec, has_edge and impl.startswith('ok'))
         else:
-            impl = call(lambda: 'ok ' + enc_listlist([[int(x) for x in c] for c in get_cycles(a, directed)]))
+            impl = call(lambda: 'ok ' + enc_listlist([[int(y) for y in c] for c in get_cycles(copy_container(x), directed)]))
             run = 'c12.cycles %s %s %d %d %s %s' % (g, dtok, ncc_d, ncc_u, enc_list(lab_d), enc_list(lab_u))
             spec = 'c12.spec_cycles %s %s %s' % (g, dtok, impl[3:]) if impl.startswith('ok ') else None
-            out.append(Case((f, g, directed), sig, run, impl, spec,
-                            has_edge and impl.startswith('ok') and impl != 'ok -', desc))
+            finish((f, g, directed), sig, run, impl, spec, has_edge and impl.startswith('ok') and impl != 'ok -')
     elif f == 'break_cycles':
         directed = desc['directed']
         root = desc['root']                      # None, int or list of ints
+        kind = desc.get('root_kind') or ('none' if root is None else ('int' if isinstance(root, int) else 'list'))
         dtok = '_' if directed is None else enc_bool(directed)
         rlist = None if root is None else ([root] if isinstance(root, int) else list(root))
         rtok = '_' if rlist is None else enc_list(rlist)
@@ -205,15 +284,16 @@ def build(desc):
         a0 = without_diagonal(a)
         _, lab_d = ext_cc(a0, True, 'strong')
         _, lab_u = ext_cc(a0, False, 'strong')
+        if n == m:
+            out.extend(contract_cases(('cyc', g), a, [(True, 'strong'), (False, 'strong')], desc))
+            out.extend(contract_cases(('cyc', enc_csr(a0)), a0, [(True, 'strong'), (False, 'strong')], desc))
 
         def fbr():
-            arg = a.copy()
-            res = break_cycles(arg, root, directed)
-            if res is arg:
-                return 'ok same', arg
-            res = sparse.csr_matrix(res)
-            rows = [sorted(int(x) for x in res.indices[res.indptr[i]:res.indptr[i + 1]]) for i in range(res.shape[0])]
-            return 'ok rows ' + enc_listlist(rows), res
+            arg = copy_container(x)
+            res = break_cycles(arg, root_arg(root, kind), directed)
+            if res is arg or same_matrix(res, a):
+                return 'ok same', a
+            return 'ok rows ' + enc_rows_valued(res), res
         r = call(fbr)
         impl, res = (r, None) if isinstance(r, str) else r
         symmetric = (a.shape[0] == a.shape[1]) and (a - a.T).nnz == 0
@@ -221,11 +301,13 @@ def build(desc):
         run = 'c12.break %s %s %s %d %d %s %s' % (g, rtok, dtok, ncc_d, ncc_u, enc_list(lab_d), enc_list(lab_u))
         if eff_directed and n > SET_ORDER_MAX_N:
             run = None
-        spec = None
         if res is not None:
             spec = 'c12.spec_break %s %s %s %s' % (g, rtok if rtok != '_' else '-', dtok, enc_csr(sparse.csr_matrix(res)))
-        sig = {'entry': f, 'directed': eff_directed, 'root_kind': 'none' if root is None else ('int' if isinstance(root, int) else 'list')}
-        out.append(Case((f, g, rtok, directed), sig, run, impl, spec, impl.startswith('ok rows'), desc))
+        else:
+            # it raised: allowed only for a call that is not admissible
+            spec = 'c12.spec_break_error %s %s %s' % (g, rtok, dtok)
+        sig = {'entry': f, 'directed': eff_directed, 'root_kind': kind}
+        finish((f, g, rtok, kind, directed), sig, run, impl, spec, impl.startswith('ok rows'))
     else:
         raise ValueError('unknown function %r' % f)
     return out
@@ -242,15 +324,15 @@ def evaluate(ctx, cases):
 # ------------------------------------------------------------------------------------------------
 # generators
 # ------------------------------------------------------------------------------------------------
-def descs_connectivity(a, fbs=(False,), conns=('weak', 'strong')):
+def descs_connectivity(a, fbs=(False,), conns=('weak', 'strong'), fmt='csr'):
     md = mat_desc(a)
     for conn in conns:
         for fb in fbs:
             for f in ('get_connected_components', 'is_connected', 'get_largest_connected_component'):
-                yield {'f': f, 'matrix': md, 'connection': conn, 'force_bipartite': fb}
+                yield {'f': f, 'matrix': md, 'format': fmt, 'connection': conn, 'force_bipartite': fb}
 
 
-def descs_cycles(a, rng, roots='all', directeds=None, with_break=True):
+def descs_cycles(a, rng, roots='all', directeds=None, with_break=True, fmt='csr', extra_roots=False):
     md = mat_desc(a)
     n = a.shape[0]
     if directeds is None:
@@ -261,21 +343,36 @@ def descs_cycles(a, rng, roots='all', directeds=None, with_break=True):
             directeds = (None, False, True) if rng.random() < 0.3 else (None, False)
         else:
             directeds = (None, True, False) if rng.random() < 0.15 else (None, True)
-    yield {'f': 'is_bipartite', 'matrix': md}
+    yield {'f': 'is_bipartite', 'matrix': md, 'format': fmt}
     for d in directeds:
-        yield {'f': 'is_acyclic', 'matrix': md, 'directed': d}
-        yield {'f': 'get_cycles', 'matrix': md, 'directed': d}
+        yield {'f': 'is_acyclic', 'matrix': md, 'format': fmt, 'directed': d}
+        yield {'f': 'get_cycles', 'matrix': md, 'format': fmt, 'directed': d}
     if not with_break:
         return
+
+    def brk(root, d, kind=None):
+        desc = {'f': 'break_cycles', 'matrix': md, 'format': fmt, 'root': root, 'directed': d}
+        if kind:
+            desc['root_kind'] = kind
+        return desc
     singles = list(range(n)) if roots == 'all' else rng.sample(range(n), min(n, roots))
     for d in directeds:
         for r in singles:
-            yield {'f': 'break_cycles', 'matrix': md, 'root': r, 'directed': d}
+            # a node number obtained from numpy is a numpy integer
+            yield brk(r, d, 'np.int64' if rng.random() < 0.3 else None)
         if n >= 2:
             k = rng.randint(2, min(n, 3))
-            yield {'f': 'break_cycles', 'matrix': md, 'root': sorted(rng.sample(range(n), k)), 'directed': d}
-            yield {'f': 'break_cycles', 'matrix': md, 'root': [rng.randrange(n)], 'directed': d}
-    yield {'f': 'break_cycles', 'matrix': md, 'root': None, 'directed': None}
+            yield brk(sorted(rng.sample(range(n), k)), d, 'ndarray' if rng.random() < 0.3 else None)
+            yield brk([rng.randrange(n)], d)
+    yield brk(None, None)
+    if extra_roots and n >= 2:
+        d = rng.choice(list(directeds))
+        # unsorted, with a repetition
+        rs = [rng.randrange(n) for _ in range(3)]
+        yield brk(rs + [rs[0]], d, rng.choice([None, 'ndarray']))
+        # outside the matrix
+        yield brk(n + rng.randrange(2), d, rng.choice([None, 'np.int64']))
+        yield brk([rng.randrange(n), n], d)
 
 
 WEIGHT_MODES = ['ones', 'bool', 'int', 'frac']
@@ -318,52 +415,78 @@ def build_descs(ctx):
     quick = ctx.quick
     out = []
 
-    def add_square(a, roots='all', kind='', with_break=True, conn=True):
+    def pick_format(p):
+        return rng.choice(FORMATS[1:]) if rng.random() < p else 'csr'
+
+    def add_square(a, roots='all', kind='', with_break=True, conn=True, unsort=0.0):
+        if unsort and rng.random() < unsort:
+            a = graphs.unsorted_copy(a, rng)
+            ctx.count('unsorted-rows')
+        fmt_s = pick_format(0.35)                 # structure.py converts with check_format
+        fmt_c = pick_format(0.2)                  # cycles.py / is_bipartite
+        for fm in (fmt_s, fmt_c):
+            ctx.count('format:' + fm)
         if conn:
-            out.extend(descs_connectivity(a, fbs=(False, True) if rng.random() < 0.25 else (False,)))
+            out.extend(descs_connectivity(a, fbs=(False, True) if rng.random() < 0.25 else (False,), fmt=fmt_s))
         if too_many_paths(a):
             ctx.count('skipped-cycles:too-many-paths')
-            out.append({'f': 'is_bipartite', 'matrix': mat_desc(a)})
-            for d in (None, True):
-                out.append({'f': 'is_acyclic', 'matrix': mat_desc(a), 'directed': d})
+            out.append({'f': 'is_bipartite', 'matrix': mat_desc(a), 'format': fmt_c})
+            for d in (None, True, False):
+                out.append({'f': 'is_acyclic', 'matrix': mat_desc(a), 'format': fmt_c, 'directed': d})
         else:
-            out.extend(descs_cycles(a, rng, roots=roots, with_break=with_break))
+            out.extend(descs_cycles(a, rng, roots=roots, with_break=with_break, fmt=fmt_c,
+                                    extra_roots=rng.random() < 0.3))
         ctx.count('graph:' + kind)
 
     # exhaustive digraphs with self-loops
     for n in (1, 2, 3):
         for es in graphs.all_digraphs(n, loops=True):
-            add_square(weighted(rng, n, es, False, mode=rng.choice(['ones', 'ones', 'frac', 'int', 'bool'])), kind='digraph%d' % n)
+            add_square(weighted(rng, n, es, False, mode=rng.choice(['ones', 'ones', 'frac', 'int', 'bool'])),
+                       kind='digraph%d' % n, unsort=0.33 if n == 3 else 0.0)
     g4 = list(graphs.all_digraphs(4))
     if quick:
-        g4 = rng.sample(g4, 150)
+        g4 = rng.sample(g4, 90)
     for es in g4:
-        add_square(weighted(rng, 4, es, False), roots=2 if quick else 'all', kind='digraph4')
+        add_square(weighted(rng, 4, es, False), roots=2 if quick else 'all', kind='digraph4', unsort=0.33)
+    # n = 4 with self-loops: 2^16 digraphs, sampled by edge bits
+    slots4 = [(i, j) for i in range(4) for j in range(4)]
+    for _ in range(70 if quick else 1500):
+        bits = rng.getrandbits(16) & rng.getrandbits(16) | (1 << (5 * rng.randrange(4)))   # sparse, at least one loop
+        es = [slots4[k] for k in range(16) if bits >> k & 1]
+        add_square(weighted(rng, 4, es, False), roots=2, kind='digraph4-loops', unsort=0.33)
     # exhaustive undirected graphs with self-loops
     for n in (2, 3, 4):
         gs = list(graphs.all_undirected(n, loops=True))
         if quick and n == 4:
-            gs = rng.sample(gs, 250)
+            gs = rng.sample(gs, 230)
         for es in gs:
-            add_square(weighted(rng, n, es, True), roots=2 if (quick and n == 4) else 'all', kind='undirected%d' % n)
+            add_square(weighted(rng, n, es, True), roots=2 if (quick and n == 4) else 'all', kind='undirected%d' % n,
+                       unsort=0.33 if n >= 3 else 0.0)
     g5 = list(graphs.all_undirected(5))
-    for es in (rng.sample(g5, 120) if quick else g5):
-        add_square(weighted(rng, 5, es, True), roots=2, kind='undirected5')
+    for es in (rng.sample(g5, 90) if quick else g5):
+        add_square(weighted(rng, 5, es, True), roots=2, kind='undirected5', unsort=0.33)
+    pairs5 = [(i, j) for i in range(5) for j in range(i, 5)]
+    for _ in range(40 if quick else 800):
+        es = []
+        for (i, j) in pairs5:
+            if rng.random() < (0.35 if i != j else 0.3):
+                es.append((i, j))
+                if i != j:
+                    es.append((j, i))
+        add_square(weighted(rng, 5, sorted(es), True), roots=2, kind='undirected5-loops', unsort=0.33)
     if not quick:
         for _ in range(1500):
             n = rng.choice([5, 6])
             es = graphs.random_edges(rng, n, rng.choice([0.12, 0.2, 0.3]), directed=True, loops=True)
-            add_square(weighted(rng, n, es, False), roots=2, kind='random-digraph%d' % n)
+            add_square(weighted(rng, n, es, False), roots=2, kind='random-digraph%d' % n, unsort=0.33)
         g6 = list(graphs.all_undirected(6))
         for es in rng.sample(g6, 1500):
-            add_square(weighted(rng, 6, es, True), roots=2, kind='undirected6')
+            add_square(weighted(rng, 6, es, True), roots=2, kind='undirected6', unsort=0.33)
     # structured random graphs
     for name, n, es, _ in graphs.suite(rng, 70 if quick else 600, 3, 12):
         kind = name.rstrip('0123456789')
         a = weighted(rng, n, es, kind in graphs.UNDIRECTED_KINDS)
-        if rng.random() < 0.5:
-            a = graphs.unsorted_copy(a, rng)
-        add_square(a, roots=2, kind='structured:' + kind)
+        add_square(a, roots=2, kind='structured:' + kind, unsort=0.5)
     # several components: disjoint unions of small cyclic pieces, roots anywhere
     for _ in range(30 if quick else 300):
         parts = [rng.choice(['tri', 'edge', 'dicycle', 'single', 'loop', 'square', 'path3']) for _ in range(rng.randint(2, 3))]
@@ -392,7 +515,7 @@ def build_descs(ctx):
         perm = list(range(n))
         rng.shuffle(perm)
         es = sorted((perm[i], perm[j]) for i, j in es)
-        add_square(weighted(rng, n, es, not directed), roots='all', kind='union')
+        add_square(weighted(rng, n, es, not directed), roots='all', kind='union', unsort=0.33)
     # biadjacency matrices (rectangular, and square ones forced)
     shapes = [(1, 2), (2, 1), (2, 2), (2, 3), (3, 2)] + ([] if quick else [(3, 3), (1, 3), (3, 4)])
     for nr, nc in shapes:
@@ -401,7 +524,7 @@ def build_descs(ctx):
             allb = rng.sample(allb, 40 if quick else 512)
         for es in allb:
             b = weighted(rng, nr, es, False, m=nc)
-            out.extend(descs_connectivity(b, fbs=(True,) if nr == nc else (False, True)))
+            out.extend(descs_connectivity(b, fbs=(True,) if nr == nc else (False, True), fmt=pick_format(0.35)))
             ctx.count('graph:biadjacency%dx%d' % (nr, nc))
     for _ in range(20 if quick else 200):
         nr, nc = rng.randint(2, 6), rng.randint(2, 6)
@@ -409,19 +532,46 @@ def build_descs(ctx):
         b = weighted(rng, nr, es, False, m=nc)
         if rng.random() < 0.5:
             b = graphs.unsorted_copy(b, rng)
-        out.extend(descs_connectivity(b, fbs=(True,)))
+        out.extend(descs_connectivity(b, fbs=(True,), fmt=pick_format(0.35)))
         ctx.count('graph:biadjacency-random')
     # degenerate stream
     for n in (1, 2, 3):
-        out.extend(descs_connectivity(mk(n, []), fbs=(False, True)))
-        out.extend(descs_cycles(mk(n, []), rng))
+        for fm in ('csr', 'dense'):
+            out.extend(descs_connectivity(mk(n, []), fbs=(False, True), fmt=fm))
+            out.extend(descs_cycles(mk(n, []), rng, fmt=fm))
     out.extend(descs_connectivity(mk(2, [], m=3)))
     for es, w in (([(0, 1), (1, 0)], [1, 2]), ([(0, 1), (1, 0), (1, 2), (2, 1), (0, 2), (2, 0)], [1, 1, 2, 2, 3, 1]),
                   ([(0, 0)], [2]), ([(0, 0), (0, 1), (1, 0)], [0.5, 1, 1])):
         n = 1 + max(max(e) for e in es)
-        out.extend(descs_cycles(mk(n, es, w), rng))
+        out.extend(descs_cycles(mk(n, es, w), rng, extra_roots=True))
         out.extend(descs_connectivity(mk(n, es, w)))
     ctx.count('graph:degenerate', 8)
+    out.extend(pinned_descs())
+    return out
+
+
+def pinned_descs():
+    """Outside the input domain of the specification (negative weights, explicit zeros): the conventions of the code as
+    they are, so that a change is noticed. Judged by run lines only (the models read values the way the code does);
+    where the model does not cover the convention the expected answer is pinned literally."""
+    out = []
+    neg_loop = mat_desc(mk(2, [(0, 0), (0, 1)], [-1, 1]))          # negative self-loop: `diagonal() > 0` ignores it
+    for d in (True, None):
+        out.append({'f': 'is_acyclic', 'matrix': neg_loop, 'directed': d, 'spec': False})
+        out.append({'f': 'get_cycles', 'matrix': neg_loop, 'directed': d, 'spec': False})
+    sym_neg_loop = mat_desc(mk(2, [(0, 0), (0, 1), (1, 0)], [-1, 1, 1]))
+    out.append({'f': 'is_bipartite', 'matrix': sym_neg_loop, 'spec': False})   # `diagonal().any()` counts it: False
+    out.append({'f': 'is_acyclic', 'matrix': sym_neg_loop, 'directed': None, 'spec': False})
+    # negative weight on a 2-cycle: the "edge still exists" test `<= 0` treats it as removed (the model works on the
+    # stored pattern and would break the cycle): pinned literally
+    neg_cycle = mat_desc(mk(2, [(0, 1), (1, 0)], [-1, 2]))
+    out.append({'f': 'break_cycles', 'matrix': neg_cycle, 'root': 0, 'directed': True, 'spec': False,
+                'pinned': 'ok same'})
+    # explicit zero stored on the path 0 - 1 - 2 (entry (0, 2) = 0): scipy counts it as an edge, the values do not
+    ez = sparse.csr_matrix((np.array([1., 0., 1., 1., 1.]), np.array([1, 2, 0, 2, 1]), np.array([0, 2, 4, 5])), shape=(3, 3))
+    ezd = mat_desc(ez)
+    for d in (True, None):
+        out.append({'f': 'is_acyclic', 'matrix': ezd, 'directed': d, 'spec': False})
     return out
 
 
@@ -444,7 +594,12 @@ def cases_of(descs):
         if k in seen:
             continue
         seen.add(k)
-        cases.extend(build(d))
+        for c in build(d):
+            if c.run is None and c.spec and c.spec.startswith('c12.contract_cc'):
+                if c.spec in seen:          # the same scipy answer, consumed by several functions
+                    continue
+                seen.add(c.spec)
+            cases.append(c)
     return cases
 
 
